@@ -57,6 +57,8 @@ mod sentence;
 pub mod token;
 pub mod tokenizer;
 mod utils;
+#[cfg(vibrato_verif)]
+pub mod verif;
 
 #[cfg(feature = "train")]
 #[cfg_attr(docsrs, doc(cfg(feature = "train")))]
